@@ -1,7 +1,10 @@
 import ScVerif.C20.FanSpeed
 namespace ScVerif.C20.FanSpeed
 
-theorem findIdx_some {p : Preset → Bool} : ∀ {ps : List Preset} {i : Nat}, findIdx p ps = some i →
+set_option linter.unusedSectionVars false
+variable {α : Type} [DecidableEq α] (add : α → α → α)
+
+theorem findIdx_some {p : Preset α → Bool} : ∀ {ps : List (Preset α)} {i : Nat}, findIdx p ps = some i →
     ∃ x, ps[i]? = some x ∧ p x = true
   | [], _, h => by simp [findIdx] at h
   | x :: xs, i, h => by
@@ -17,7 +20,7 @@ theorem findIdx_some {p : Preset → Bool} : ∀ {ps : List Preset} {i : Nat}, f
         obtain ⟨y, hy, hp⟩ := findIdx_some hr
         exact ⟨y, by simpa using hy, hp⟩
 
-theorem findIdx_none {p : Preset → Bool} : ∀ {ps : List Preset}, findIdx p ps = none → ∀ x ∈ ps, p x = false
+theorem findIdx_none {p : Preset α → Bool} : ∀ {ps : List (Preset α)}, findIdx p ps = none → ∀ x ∈ ps, p x = false
   | [], _, x, hx => by simp at hx
   | y :: ys, h, x, hx => by
     unfold findIdx at h
@@ -32,8 +35,8 @@ theorem findIdx_none {p : Preset → Bool} : ∀ {ps : List Preset}, findIdx p p
       · simpa using hy
       · exact findIdx_none hr x hx
 
-theorem merged_preset (old : Fan) (r : Request) :
-    (merged old r).preset = old.preset ∨ (merged old r).preset = r.src.preset := by
+theorem merged_preset (old : Fan α) (r : Request α) :
+    (merged add old r).preset = old.preset ∨ (merged add old r).preset = r.src.preset := by
   unfold merged merge
   cases r.mask with
   | none => right; cases r.relative <;> rfl
